@@ -319,6 +319,55 @@ def generate(repo):
         return 'Definition g_default_groups : list (list aa) := %s.' % coq_list(grps)
     out.add('g_default_groups', compositions)
 
+    # ---- phosphosites
+    def phospho():
+        f = S('setPhosPhoSites')
+        src = ast.unparse(f)
+        sty = []
+        for fn in ('setPhosPhoSites', 'get_phosphosequence', 'get_STY_residues'):
+            for n in ast.walk(S(fn)):
+                if isinstance(n, ast.Compare) and isinstance(n.ops[0], (ast.In, ast.NotIn)) and \
+                        isinstance(n.comparators[0], ast.List) and all(isinstance(e, ast.Constant) for e in n.comparators[0].elts):
+                    sty.append(coq_list(sorted(coq_aa1(c) for c in str_list(n.comparators[0]))))
+        need(len(sty) == 3, 'three S/T/Y lists expected, found %d' % len(sty))
+        lp = [n for n in ast.walk(f) if isinstance(n, ast.For)]
+        need(len(lp) == 1 and ast.unparse(lp[0].iter) == 'listOfPsites', 'site loop')
+        b = lp[0].body
+        bs = [ast.unparse(x) for x in b]
+        need(bs[0] == 'site = int(site)' and bs[1] == 'idx = site - 1', 'site -> idx')
+        need(isinstance(b[2], ast.If) and ast.unparse(b[2].test) == 'idx >= len(self.seq) or idx < 0'
+             and isinstance(b[2].body[-1], ast.Continue) and not b[2].orelse, 'range guard must skip (continue)')
+        need(bs[3] == 'res = self.seq[idx]', 'residue lookup')
+        last = b[-1]
+        need(isinstance(last, ast.If) and ast.unparse(last.test).startswith('res not in ') and
+             len(last.orelse) == 1 and isinstance(last.orelse[0], ast.If) and
+             ast.unparse(last.orelse[0].test) == 'idx in self.phosphosites' and
+             ast.unparse(last.orelse[0].orelse[0]) == 'self.phosphosites.append(idx)', 'dedup-and-append shape')
+        need('if isinstance(listOfPsites, int):' in src, 'single int form')
+        need(ast.unparse(S('clear_phosphosites').body[-1]) == 'self.phosphosites = []', 'clear')
+        g = ast.unparse(S('get_phosphosites'))
+        need('for i in self.phosphosites:\n        newSites.append(i + 1)' in g and 'return newSites' in g, 'get_phosphosites')
+        ps = ast.unparse(S('get_phosphosequence'))
+        need("if idx in self.phosphosites:" in ps and "pseq = pseq + 'E'" in ps and 'pseq = pseq + self.seq[idx]' in ps, 'phosphosequence')
+        km = ast.unparse(S('kappa_at_maxPhos'))
+        need("if len(self.phosphosites) == 0:\n        return self.kappa()" in km and "newseq[pos] = 'E'" in km
+             and 'return newseqObj.kappa()' in km, 'kappa_at_maxPhos')
+        d = S('calculateKappaDistOfPhosphoStates')
+        ds = ast.unparse(d)
+        need("for phosphostatus in itertools.product('01', repeat=len(self.phosphosites)):" in ds, 'product order')
+        need("if int(i) == 1:\n                newseq[self.phosphosites[indx]] = 'E'" in ds, 'substitution in distribution')
+        tup = None
+        for n in ast.walk(d):
+            if isinstance(n, ast.Call) and ast.unparse(n.func) == 'phosphokappa.append':
+                tup = [ast.unparse(e) for e in n.args[0].elts]
+        need(tup is not None, 'distribution tuple')
+        sy = ast.unparse(S('get_STY_residues'))
+        need('idx = 1' in sy and 'sites.append(idx)' in sy and 'idx = idx + 1' in sy, 'get_STY_residues')
+        return ('Definition g_sty_lists : list (list aa) := %s.\n'
+                'Definition g_phospho_letter : aa := Glu.\n'
+                'Definition g_dist_fields : list string := %s.' % (coq_list(sty), coq_list([coq_str(x) for x in tup])))
+    out.add('g_phospho', phospho)
+
     # ---- Omega, Omega_seq, kappa_X, __parse_group
     def omega():
         f = S('Omega')
